@@ -282,8 +282,8 @@ def writer(report, db, S, M):
                             wp.node, rel(wp.path))
 
 
-def reader(report, db, S, M):
-    R = report.rule('R01.2', 'reader mirror: under compression read the '
+def reader(report, db, S, M, rule_id='R01.2'):
+    R = report.rule(rule_id, 'reader mirror: under compression read the '
                     'data length, inflate iff it is > 0, check the size, '
                     'replace the buffer and rewind; then read the id')
     rp = M.method(M.reactor, 'read_packet')
@@ -361,6 +361,30 @@ def reader(report, db, S, M):
                 marker = ('gt', pol)
             elif a[1] in ('<', '<=') and D in a[2] and marker is None:
                 marker = ('other', show(a) if pol else 'not ' + show(a))
+        # the announced length decides one thing only (inflate or not) and
+        # is compared with one thing only (the inflated size): any other
+        # test of it makes the reader refuse frames the format allows
+        extra = []
+        for a, pol, _ in p.conds:
+            if not any(t == D for t in pathsum.subterms(a)):
+                continue
+            if a[1] in ('<', '<=', '==', 'truth') and (
+                    a[2] in ((('const', 0), D), (D, ('const', 0)),
+                             (D, ('const', 1)), (('const', 1), D))
+                    or a[1] == 'truth' and a[2][0] == D
+                    or a[1] == '==' and set(a[2]) == {('const', 0), D}):
+                continue
+            if a[1] == '==' and any(
+                    t[0] == 'op' and t[1] == 'len' for t in a[2]):
+                continue
+            extra.append(('' if pol else 'not ') + show(a))
+        if extra and marker is not None and marker[0] == 'gt':
+            prob['reader:extra-size-test'] = (
+                dl.node, 'a frame is accepted only when [%s]: the format '
+                'puts no other condition on the announced data length than '
+                '0 = not compressed, so frames a conforming peer sends are '
+                'refused' % ' and '.join(extra))
+            continue
         infl = [e for e in top if e.method() == 'decompress']
         if marker is None:
             prob['reader:marker-test'] = (
